@@ -1,6 +1,6 @@
 (* C01 — Decoding never crashes or hangs, whatever bytes and history it is given. *)
 From H263V Require Import base.Prelude model.Types model.Tables model.Reader model.Header model.Syntax model.F32 model.Recon model.Decoder
-  proofs.KernelRanges proofs.Total1 proofs.Total2 proofs.Total3 proofs.StateRefine.
+  proofs.KernelRanges proofs.Total1 proofs.Total2 proofs.Total3 proofs.StateRefine gen.GenPLoop bridge.BridgePReach.
 
 (* The model renders every Rust operation that can panic (overflow under overflow checks, slice and Vec
    indexing, division and remainder by zero, expect/unwrap/assert, unreachable!) as an operation that can
@@ -17,6 +17,15 @@ Proof. exact decode_total. Qed.
 Theorem C01_history_total : forall o ops r, safe (decode_next_picture (fold_left step ops (new_state o)) r).
 Proof. exact history_total. Qed.
 
+(* ... and the same for decode_next_picture AS REGENERATED FROM THE SOURCE on this run (gen/GenPLoop.v: the five statement
+   ranges of the function translated by tools/rs2v_parser.py and composed by the generator; gq reads the quantizer of a
+   GroupOfBlocks, which the translated decode_gob never builds): it is the model's function on every reachable state
+   (bridge/BridgePReach.v), so it neither panics nor runs out of fuel either *)
+Theorem C01_source_total : forall gq o ops r, safe (p_decode_next_picture gq (fold_left step ops (new_state o)) r).
+Proof. exact source_history_total. Qed.
+Theorem C01_source_is_model : forall gq o ops r,
+  p_decode_next_picture gq (fold_left step ops (new_state o)) r = decode_next_picture (fold_left step ops (new_state o)) r.
+Proof. exact bridge_p_decode_next_picture_reachable. Qed.
 (* no loop spins without consuming input: every successfully parsed macroblock (stuffing and not-coded
    included) consumed at least one bit, so the macroblock loop's fuel (unread bits + 1) suffices *)
 Theorem C01_macroblock_progress : forall pic running r mb r',
@@ -38,7 +47,10 @@ Check C01_decode_total : forall s r,
   st_inv s ->
   safe (decode_next_picture s r) /\ (forall s' r', decode_next_picture s r = Ok (s', r') -> st_inv s').
 Check C01_history_total : forall o ops r, safe (decode_next_picture (fold_left step ops (new_state o)) r).
+Check C01_source_total : forall gq o ops r, safe (p_decode_next_picture gq (fold_left step ops (new_state o)) r).
 Print Assumptions C01_decode_total.
 Print Assumptions C01_history_total.
+Print Assumptions C01_source_total.
+Print Assumptions C01_source_is_model.
 Print Assumptions C01_macroblock_progress.
 Print Assumptions C01_kernels_safe.
